@@ -23,6 +23,7 @@ import (
 	"errors"
 	"fmt"
 	"math"
+	"runtime"
 	"sort"
 	"strings"
 	"sync"
@@ -889,14 +890,21 @@ func runHist(c Case) ([]hop, sspec, error) {
 		r := apply(dq, o, cancelled)
 		out = append(out, hop{Tid: -1, Op: o, R: r, Inv: inv, Ret: int(clock.Add(1))})
 	}
-	start := make(chan struct{})
+	// spin barrier: every goroutine is running before any of them issues its first operation
+	var arrived atomic.Int32
+	nthreads := int32(len(c.Threads))
 	var wg sync.WaitGroup
 	res := make([][]hop, len(c.Threads))
 	for t := range c.Threads {
 		wg.Add(1)
 		go func(t int) {
 			defer wg.Done()
-			<-start
+			arrived.Add(1)
+			for spin := 0; arrived.Load() < nthreads; spin++ {
+				if spin%4096 == 4095 {
+					runtime.Gosched()
+				}
+			}
 			for _, o := range c.Threads[t] {
 				ctx := cancelled
 				var cancel context.CancelFunc
@@ -913,7 +921,6 @@ func runHist(c Case) ([]hop, sspec, error) {
 			}
 		}(t)
 	}
-	close(start)
 	wg.Wait()
 	for t := range res {
 		out = append(out, res[t]...)
@@ -1090,9 +1097,12 @@ func mkDeque(capacity int) *pubsub.Deque[int64] {
 	return dq
 }
 
+// late: the waiter's 10 s deadline had already fired when it returned, i.e. it was the deadline's
+// broadcast that woke it, not the operation that satisfied its condition.
 type waitRes struct {
-	v   int64
-	err error
+	v    int64
+	err  error
+	late bool
 }
 
 var scenarios = []scen{
@@ -1157,6 +1167,7 @@ var scenarios = []scen{
 			} else {
 				r.v, r.err = dq.WaitFront(ctx)
 			}
+			r.late = ctx.Err() != nil
 			ch <- r
 		}()
 		time.Sleep(settle)
@@ -1168,8 +1179,8 @@ var scenarios = []scen{
 			_ = dq.PushFront(7)
 		}
 		r := <-ch
-		if r.err != nil || r.v != 7 {
-			return wname, "missed-wakeup", fmt.Sprintf("%s parked on an empty deque; %s(7) followed; the waiter returned (%d, %v) instead of (7, nil) (10 s deadline)", wname, pname, r.v, r.err)
+		if r.err != nil || r.v != 7 || r.late {
+			return wname, "missed-wakeup", fmt.Sprintf("%s parked on an empty deque; %s(7) followed; the waiter returned (%d, %v), woken only by its 10 s deadline: %v; expected (7, nil) at once", wname, pname, r.v, r.err, r.late)
 		}
 		return "", "", ""
 	}},
@@ -1183,7 +1194,7 @@ var scenarios = []scen{
 		}
 		ctx, cancel := context.WithTimeout(context.Background(), deadline)
 		defer cancel()
-		ch := make(chan error, 1)
+		ch := make(chan waitRes, 1)
 		go func() {
 			var err error
 			switch arg {
@@ -1196,13 +1207,13 @@ var scenarios = []scen{
 			case 3:
 				err = dq.WaitPushBack(ctx, 9)
 			}
-			ch <- err
+			ch <- waitRes{err: err, late: ctx.Err() != nil}
 		}()
 		time.Sleep(settle)
 		_ = dq.Close()
-		err := <-ch
-		if !errors.Is(err, pubsub.ErrQueueClosed) {
-			return name, "close-no-wakeup", fmt.Sprintf("%s was parked when Close() was called; it returned %v instead of ErrQueueClosed (10 s deadline)", name, err)
+		r := <-ch
+		if !errors.Is(r.err, pubsub.ErrQueueClosed) || r.late {
+			return name, "close-no-wakeup", fmt.Sprintf("%s was parked when Close() was called; it returned %v, woken only by its 10 s deadline: %v; expected ErrQueueClosed at once", name, r.err, r.late)
 		}
 		return "", "", ""
 	}},
@@ -1212,17 +1223,19 @@ var scenarios = []scen{
 		_ = dq.PushBack(1)
 		ctx, cancel := context.WithTimeout(context.Background(), deadline)
 		defer cancel()
-		ch := make(chan error, 1)
+		ch := make(chan waitRes, 1)
 		name := "WaitPushFront"
 		if arg/2 == 1 {
 			name = "WaitPushBack"
 		}
 		go func() {
+			var err error
 			if arg/2 == 1 {
-				ch <- dq.WaitPushBack(ctx, 5)
+				err = dq.WaitPushBack(ctx, 5)
 			} else {
-				ch <- dq.WaitPushFront(ctx, 5)
+				err = dq.WaitPushFront(ctx, 5)
 			}
+			ch <- waitRes{err: err, late: ctx.Err() != nil}
 		}()
 		time.Sleep(settle)
 		if arg%2 == 1 {
@@ -1230,10 +1243,10 @@ var scenarios = []scen{
 		} else {
 			dq.PopFront()
 		}
-		err := <-ch
+		r := <-ch
 		v, ok := dq.PopFront()
-		if err != nil || !ok || v != 5 {
-			return name, "missed-wakeup", fmt.Sprintf("%s parked on a full deque; a pop followed; it returned %v and the deque then held (%d,%v), expected nil and 5", name, err, v, ok)
+		if r.err != nil || !ok || v != 5 || r.late {
+			return name, "missed-wakeup", fmt.Sprintf("%s parked on a full deque; a pop followed; it returned %v (woken only by its 10 s deadline: %v) and the deque then held (%d,%v), expected nil at once and 5", name, r.err, r.late, v, ok)
 		}
 		return "", "", ""
 	}},
@@ -1251,6 +1264,7 @@ var scenarios = []scen{
 				} else {
 					r.v, r.err = dq.WaitFront(ctx)
 				}
+				r.late = ctx.Err() != nil
 				ch <- r
 			}(i)
 		}
@@ -1258,8 +1272,8 @@ var scenarios = []scen{
 		_ = dq.PushBack(1)
 		_ = dq.PushBack(2)
 		a, b := <-ch, <-ch
-		if a.err != nil || b.err != nil || a.v == b.v || a.v+b.v != 3 {
-			return "WaitFront", "missed-wakeup", fmt.Sprintf("two parked consumers, PushBack(1), PushBack(2): results (%d,%v) and (%d,%v)", a.v, a.err, b.v, b.err)
+		if a.err != nil || b.err != nil || a.v == b.v || a.v+b.v != 3 || a.late || b.late {
+			return "WaitFront", "missed-wakeup", fmt.Sprintf("two parked consumers, PushBack(1), PushBack(2): results (%d,%v,late=%v) and (%d,%v,late=%v)", a.v, a.err, a.late, b.v, b.err, b.late)
 		}
 		return "", "", ""
 	}},
@@ -1282,6 +1296,7 @@ var scenarios = []scen{
 		go func() {
 			var r waitRes
 			r.v, r.err = p(ctx)
+			r.late = ctx.Err() != nil
 			ch <- r
 		}()
 		time.Sleep(settle)
@@ -1291,8 +1306,8 @@ var scenarios = []scen{
 			_ = dq.PushBack(2)
 		}
 		r := <-ch
-		if r.err != nil || r.v != 2 {
-			return name, "missed-wakeup", fmt.Sprintf("%s parked behind the last element; a push at that end followed; it returned (%d,%v) instead of (2,nil) (10 s deadline)", name, r.v, r.err)
+		if r.err != nil || r.v != 2 || r.late {
+			return name, "missed-wakeup", fmt.Sprintf("%s parked behind the last element; a push at that end followed; it returned (%d,%v), woken only by its 10 s deadline: %v; expected (2,nil) at once", name, r.v, r.err, r.late)
 		}
 		return "", "", ""
 	}},
@@ -1358,7 +1373,7 @@ func bucket(n int) string {
 
 func main() {
 	run := kit.Start()
-	run.Header = "From FunV Require Import Base.Tac Model.DequeHeap Corr.C06_corr.\nFrom Coq Require Import Floats."
+	run.Header = "From FunV Require Import Base.Tac Model.DequeHeap Corr.C06_corr.\nFrom Coq Require Import PrimFloat."
 	run.Footer = "Definition M := Eval vm_compute in mismatches cases.\nPrint M."
 	run.CaseType = "case"
 	run.Rule = "seq: random sequences of the 12 Deque operations (unique item values, both ends, blocking ops with a cancelled context) over fixed-capacity / unlimited / queue-options / malformed options, results + Len + forward and reverse contents observed after every step, drained from both ends; hist: 2-6 goroutines, <= 12 operations, stamped from one atomic counter, blocking ops with a cancelled or a 2 ms context, linearizability searched against the sequential specification; scenario: wake-up scenarios with 10 s deadlines. distinct = distinct (options, operation sequence) resp. distinct recorded history; non-trivial = a pop/Wait returned an item after a successful push (seq), two operations of different goroutines overlapped and an item was returned (hist), every scenario"
@@ -1460,7 +1475,7 @@ func main() {
 	}
 
 	// ---- concurrent histories
-	nh := run.Pick(400, 12000)
+	nh := run.Pick(4000, 60000)
 	stopHist := false
 	for i := 0; i < nh && !stopHist; i++ {
 		r := run.Rand.Fork()
